@@ -131,6 +131,9 @@ def run(outdir):
             continue
         removed = [l for l in open(f'{outdir}/cands/{fn}') if l.startswith('-') and not l.startswith('---')]
         hunk = ''.join(l for l in open(f'{outdir}/cands/{fn}') if l.startswith('@@'))
+        if any(re.search(r'\bCheckWithMsg\(|\bCheck\(', l) for l in removed) or re.search(r'func CheckWithMsg|func Check\(', hunk):
+            open(res, 'a').write(f"{mid}\tSKIPPED-IO-ERROR-PATH\t\n")
+            continue
         if re.search(r'PlotGraph|DotGraph|PlotConf', hunk):
             open(res, 'a').write(f"{mid}\tSKIPPED-PLOTTING\t\n")
             continue
